@@ -1,4 +1,5 @@
 import PilotaModel.Lemmas.GraphBox
+import PilotaModel.Build.Derive
 /-
   C14 — recursive and mutually recursive types: the boxing decision of pilota-build (`BoxedPlugin` over
   `TypeGraph::is_nested`), modelled in Build/Graph.lean and compared with the `Box<…>` fields of the emitted Rust
@@ -72,5 +73,32 @@ example : ∀ a b, b ∈ unionSucc zoo a → ¬ Reach (unionSucc zoo) b a := by
 touch (only struct fields are boxed). -/
 def d32 : GDoc := [⟨.union, [.other, .path 0]⟩]
 theorem union_cycle_is_not_boxed : saturated d32 = true ∧ boxedFields d32 = [] ∧ 0 ∈ inlineSucc d32 (decision d32) 0 := by decide
+
+end Pilota.Props.C14Graph
+
+/-! ## automatic derives (`AutoDerivePlugin`): PartialOrd, and Hash / Eq / Ord -/
+namespace Pilota.Props.C14Graph
+open Pilota.Build
+
+/-- the executable decision is the specification: the derive is given iff nothing reachable through field types is rejected -/
+theorem derive_decision_exact (g : DDoc) (hash : Bool) (n : Nat) (b : Bool) (h : canDeriveB g hash n = some b) :
+    b = true ↔ CanDerive g hash n := canDeriveB_iff g hash n b h
+
+/-- what rustc needs of a `#[derive]`: no rejected field type in the item, every item its field types mention derives too -/
+theorem derive_closed (g : DDoc) (hash : Bool) (n : Nat) (h : CanDerive g hash n) :
+    badAt g hash n = false ∧ ∀ p ∈ dsucc g n, CanDerive g hash p := canDerive_closed g hash n h
+
+/-- an item left without the derive could not have had it -/
+theorem derive_maximal (g : DDoc) (hash : Bool) (n : Nat) (h : canDeriveB g hash n = some false) :
+    ∃ m, Reach (dsucc g) n m ∧ badAt g hash m = true := not_canDerive_has_witness g hash n false h rfl
+
+theorem derive_hash_implies_partialOrd (g : DDoc) (n : Nat) (h : CanDerive g true n) : CanDerive g false n :=
+  hash_implies_partialOrd g n h
+
+/-- non-vacuity: `struct T { A a, U u, set<double> n }  struct A { list<B> b }  struct B { A a }  struct U { T t }
+struct K { i32 k, double d }  struct L { i32 x }`: A and B (a closed cycle of clean types) and L derive both; K only PartialOrd;
+T and U (a cycle through T's set) neither. -/
+def dzoo : DDoc := [⟨[.path 1, .path 3, .mapset]⟩, ⟨[.path 2]⟩, ⟨[.path 1]⟩, ⟨[.path 0]⟩, ⟨[.leaf, .float]⟩, ⟨[.leaf]⟩]
+example : dsaturated dzoo = true ∧ derivingItems dzoo false = [1, 2, 4, 5] ∧ derivingItems dzoo true = [1, 2, 5] := by decide
 
 end Pilota.Props.C14Graph
